@@ -15,7 +15,7 @@ def run(tier, seed, replay=None):
         differential(check, 'C06', 'decoders', 'c06', tier, seed, replay, 250, 20000, extract_between_bars, timeout=3000)
     if not replay or is_wire:
         differential(check, 'C06w', 'wire', 'c05', tier, seed + 7, replay, 40, 2000, replay_text, sample_lines=4)
-    check.coverage['rule'] = ('(decoders) for each of string/bytes/bincode<struct,Vec<String>,Option<(u32,Vec<u8>)>>/gzip/zlib/zstd/lz4/brotli: a valid encoding '
+    check.coverage['rule'] = ('(decoders) for each of string/bytes/bincode<struct,Vec<String>,Option<(u32,Vec<u8>)>,((), unit struct)>/gzip/zlib/zstd/lz4/brotli: a valid encoding '
                               'perturbed by one of {none, truncate, bit flips, adversarial 8-byte length (2^24..2^64-1) at offset 0 or random, random bytes, garbage tail, '
                               'invalid UTF-8 fragment}; compressed inputs left untouched carry the length and hash they must decompress to, one payload in ten is larger than a frame block (4.3-4.7 MB, so that a damaged frame fails after output was produced); each case runs in a child process with RLIMIT_AS = 1 GiB, an abort is recorded as such; (wire) raw and batch cases '
                               'of the C05 engine (oversize prefixes, well-framed type-confused frames: a valid length prefix, any type byte 0..10 and random bytes or the payload of another frame, mutated streams, mutated batches); non-trivial = distinct input')
